@@ -7,6 +7,7 @@
   about that algorithm (`Heap.pop_ordered`), not an assumption.
 -/
 import IpfixModel.Lemmas.Sched
+import IpfixModel.Spec.C06
 namespace Ipfix.C06
 open Agg
 
@@ -63,6 +64,58 @@ theorem pop_is_earliest {a a' : Array Item} {x : Item} (h : Heap.Ordered Item.de
     Heap.Ordered Item.deadline a' ∧ (∀ y ∈ a'.toList, x.deadline ≤ y.deadline) ∧ x = a[0]! :=
   Heap.pop_ordered Item.deadline h hp
 
+/-! ## Refused records
+
+  A record whose template lacks an element the aggregation is configured with is refused
+  (AggregateMsgByFlowKey returns an error). The model has no such record - the scheduling
+  specification says what the schedule must look like afterwards: what it was (`checkIdle`, the
+  judgement of a snapshot that follows no operation on the schedule). The two lemmas show that this
+  judgement is exact on the items: it accepts the unchanged snapshot and rejects any snapshot in
+  which an item of a held flow has another deadline (readiness, retry count) or is gone. -/
+
+/-- in a queue without repeated keys an item is found under its key -/
+theorem findItem_self (q : List SItem) (hnd : (q.map (·.key)).Nodup) (it : SItem) (hit : it ∈ q) :
+    findItem q it.key = some it := by
+  unfold findItem
+  induction q with
+  | nil => cases hit
+  | cons x t ih =>
+    simp only [List.map_cons, List.nodup_cons] at hnd
+    rcases List.mem_cons.mp hit with h | h
+    · subst h; simp
+    · have hne : x.key ≠ it.key := by
+        intro he
+        exact hnd.1 (he ▸ List.mem_map_of_mem h)
+      rw [List.find?_cons_of_neg (by simpa using hne)]
+      exact ih hnd.2 h
+
+/-- a refused record - like a clock advance - may leave everything as it was -/
+theorem idle_accepts_unchanged (s : Snap) (hnd : (s.queue.map (·.key)).Nodup) : checkIdle s s = none := by
+  unfold checkIdle
+  have h : s.queue.find? (fun it => findItem s.queue it.key != some it) = none := by
+    rw [List.find?_eq_none]
+    intro it hit
+    simp [findItem_self s.queue hnd it hit]
+  simp [h]
+
+/-- ... and nothing else: an item of the earlier snapshot that the later one shows differently (a deadline
+    moved by a refused record, say) or not at all is reported -/
+theorem idle_rejects_changed_item (pre post : Snap) (it : SItem) (hit : it ∈ pre.queue)
+    (hch : findItem post.queue it.key ≠ some it) : checkIdle pre post ≠ none := by
+  unfold checkIdle
+  split
+  · simp
+  · split
+    · simp
+    · split
+      · simp
+      · split
+        · simp
+        · rename_i hf
+          rw [List.find?_eq_none] at hf
+          have := hf it hit
+          simp at this
+          exact absurd this hch
 /-! ## Non-vacuity: the two shapes that used to strand a flow (D7, D8) now keep the invariant -/
 def r1 : InRec := { key := 1, flowType := 1, corr := [.str [1], .str [], .str [], .str [2], .str [], .str [], .ip4 [0,0,0,0], .num 0, .num 0, .num 0, .num 0, .ip6 zero16],
                     start := 100, end_ := 101, endReason := 2, tcpState := [], stats := [1, 1, 1, 1, 1, 1, 1, 1] }
